@@ -27,6 +27,9 @@ PROPS = {
             {"scen": "tunnel", "sets": {"mode": "clean", "raw": True}, "quick": 300, "thorough": 10000},
             {"scen": "tunnel", "sets": {"mode": "recover"}, "quick": 1200, "thorough": 60000},
             {"scen": "tunnel", "sets": {"mode": "recover", "hs": True}, "quick": 600, "thorough": 40000},
+            # an open known finding (known_findings.json): raw mode tried from behind a resolver - the DNS queries come from the relay's address,
+            # the raw login from the client's own - and the server's raw replies are lost: the session stays bound to the raw address
+            {"scen": "tunnel", "sets": {"mode": "recover", "hs": True, "rawrelay": True}, "quick": 48, "thorough": 2000},
         ],
         "expect_probes": ["c02.cli.accept", "c02.srv.accept", "c02.cli.drained", "srv.outseq_wrap", "srv.inseq_wrap", "c02.srv.accept.raw"],
     },
